@@ -365,6 +365,17 @@ fn apply_inner(
         .map(|r| r.to_int_rect())
         .ok_or(Error::InvalidRegion)?;
 
+    #[cfg(resvg_verif)]
+    crate::verif_hooks::trace(|| {
+        format!(
+            "{{\"ev\":\"filter\",\"region\":{},\"source\":[{},{}],\"ts\":{}}}",
+            crate::verif_hooks::irect(region),
+            source.width(),
+            source.height(),
+            crate::verif_hooks::ts(ts),
+        )
+    });
+
     let mut results: Vec<FilterResult> = Vec::new();
 
     for primitive in filter.primitives() {
@@ -1137,4 +1148,50 @@ fn resolve_std_dev(std_dx: f32, std_dy: f32, ts: usvg::Transform) -> Option<(f64
 fn scale_coordinates(x: f32, y: f32, ts: usvg::Transform) -> Option<(f32, f32)> {
     let (sx, sy) = ts.get_scale();
     Some((x * sx, y * sy))
+}
+
+/// Re-exports of private kernels for the verification harness (`--cfg resvg_verif` only).
+#[cfg(resvg_verif)]
+pub mod verif {
+    pub use super::box_blur::apply as box_blur;
+    pub use super::color_matrix::apply as color_matrix;
+    pub use super::component_transfer::apply as component_transfer;
+    pub use super::composite::arithmetic;
+    pub use super::convolve_matrix::apply as convolve_matrix;
+    pub use super::displacement_map::apply as displacement_map;
+    pub use super::iir_blur::apply as iir_blur;
+    pub use super::lighting::{diffuse_lighting, specular_lighting};
+    pub use super::morphology::apply as morphology;
+    pub use super::turbulence::apply as turbulence;
+    pub use super::{ImageRef, ImageRefMut};
+    pub use rgb::RGBA8;
+
+    pub fn multiply_alpha(data: &mut [RGBA8]) {
+        super::multiply_alpha(data)
+    }
+    pub fn demultiply_alpha(data: &mut [RGBA8]) {
+        super::demultiply_alpha(data)
+    }
+    pub fn into_linear_rgb(data: &mut [RGBA8]) {
+        super::into_linear_rgb(data)
+    }
+    pub fn from_linear_rgb(data: &mut [RGBA8]) {
+        super::from_linear_rgb(data)
+    }
+    pub fn f32_bound(min: f32, val: f32, max: f32) -> f32 {
+        super::f32_bound(min, val, max)
+    }
+    pub fn transform_light_source(
+        source: usvg::filter::LightSource,
+        region: tiny_skia::IntRect,
+        ts: usvg::Transform,
+    ) -> usvg::filter::LightSource {
+        super::transform_light_source(source, region, ts)
+    }
+    pub fn resolve_std_dev(std_dx: f32, std_dy: f32, ts: usvg::Transform) -> Option<(f64, f64, bool)> {
+        super::resolve_std_dev(std_dx, std_dy, ts)
+    }
+    pub fn apply(filter: &usvg::filter::Filter, ts: tiny_skia::Transform, source: &mut tiny_skia::Pixmap) {
+        super::apply(filter, ts, source)
+    }
 }
